@@ -131,3 +131,40 @@ def messages_equal(orig: t.Any, dec: t.Any, options: t.Any = None) -> t.Optional
         return f"inconsistent-value:{e.tag}: {e}"
     d = diff_path(a1, a2)
     return d
+
+
+class watchdog:
+    """For loops over millions of cheap library calls, where a guard per call would cost more than the calls: every case
+    bumps a counter (``evid.Local.add`` does), a CPU-time interval timer looks every ``period`` seconds whether the count has moved, and raises
+    CallDoesNotReturn inside whatever is running once it has not moved for ``stalls`` periods in a row -- i.e. inside the one
+    library call that is not returning.  The check's own ``except BaseException`` then reports it like any other failure."""
+
+    def __init__(self, period: float = 5.0, stalls: int = 2) -> None:
+        self.period, self.stalls = period, stalls
+        self.last, self.idle = -1, 0
+
+    def _fire(self, signum: int, frame: t.Any) -> None:
+        from vf.engine import evid
+
+        now = evid.BEATS[0]
+        if now == self.last:
+            self.idle += 1
+            if self.idle >= self.stalls:
+                self.idle = 0
+                guard.fired += 1
+                raise CallDoesNotReturn(f"no result after {self.period * self.stalls:g} s of CPU time")
+        else:
+            self.last, self.idle = now, 0
+
+    def __enter__(self) -> "watchdog":
+        import signal
+
+        self.old = signal.signal(signal.SIGVTALRM, self._fire)
+        signal.setitimer(signal.ITIMER_VIRTUAL, self.period, self.period)
+        return self
+
+    def __exit__(self, *exc: t.Any) -> None:
+        import signal
+
+        signal.setitimer(signal.ITIMER_VIRTUAL, 0)
+        signal.signal(signal.SIGVTALRM, self.old)
